@@ -270,7 +270,12 @@ def h_struct(ctx, which, nfields):
         names = sorted(st.fields)
         # a deterministic spread of fields (all of them in thorough)
         step = max(1, len(names) // nfields)
-        name = ctx.pick(names[::step])
+        picked = names[::step]
+        # always: the array fields (sv) and the string field (vcpu)
+        for extra in (b"status_map", b"app_name"):
+            if extra in st.fields and extra not in picked:
+                picked = picked + [extra]
+        name = ctx.pick(picked)
         field = st[name]
         # sv: an array field is `length` repetitions of its element.  vcpu:
         # the per-core accessors transfer one element of the field's pack
@@ -284,14 +289,56 @@ def h_struct(ctx, which, nfields):
             base = sv.base
             p = 0
         else:
-            vbase = ctx.bv("vcpu_base", 30)
-            p = ctx.bv("p", 5)
-            ctx.assume(p <= 17)
+            is_text = b"s" in field.pack_chars
+            if is_text:
+                # text cannot be symbolic (strip / decode): concrete base,
+                # core and content for the string field
+                vbase = ctx.pick((0x67800000, 0x2ffffff0))
+                p = ctx.pick((0, 5, 17))
+            else:
+                vbase = ctx.bv("vcpu_base", 30)
+                p = ctx.bv("p", 5)
+                ctx.assume(p <= 17)
             vb_field = sv[b"vcpu_base"]
             mem.write(sv.base + vb_field.offset, sstruct.pack("<I", vbase))
             base = vbase + vcpu.size * p
         address = base + field.offset
         fname = name.decode("ascii")
+        if which == "vcpu" and is_text:
+            text = ctx.pick(("", "a", "sixteen chars!!!", "stop\0here"))
+            stored = text.encode("ascii")[:16].ljust(16, b"\0")
+            mem.write(address, stored)
+            mark = len(machine.log)
+            try:
+                if op == "read":
+                    val = mc.read_vcpu_struct_field(fname, X, Y, p)
+                    ctx.observe("read", fname, val)
+                    want = stored.strip(b"\0").decode("utf-8")
+                    ctx.prove(val == want, "struct-field-wrong-value",
+                              (fname, val, want))
+                else:
+                    new = ctx.pick(("", "b", "another 16 chars"))
+                    mc.write_vcpu_struct_field(fname, new, X, Y, p)
+                    ctx.observe("written", fname)
+                    got = mem.read(address, 16)
+                    want = new.encode("utf-8").ljust(16, b"\0")
+                    ctx.prove(bytes(got) == want, "struct-field-wrong-value",
+                              (fname, bytes(got), want))
+            except Exception as e:
+                ctx.observe(type(e).__name__)
+                ctx.prove(False, "memory-unexpected-exception",
+                          (fname, repr(e)))
+                return
+            ctx.witness("vcpu-text-" + op)
+            cmds = [q for q in machine.log[mark:] if int(q.cmd) in (2, 3)]
+            ctx.prove(len(cmds) >= 2 and cmds[-1].arg1 == address,
+                      "struct-field-wrong-address",
+                      (fname, [q.arg1 for q in cmds], address))
+            for q in cmds:
+                ctx.prove((q.dest_x, q.dest_y, q.dest_cpu) == (X, Y, 0),
+                          "struct-field-wrong-core")
+            _check_commands(ctx, machine, buf, (), (X, Y, 0))
+            return
         mark = len(machine.log)
         try:
             if op == "read":
@@ -483,7 +530,8 @@ def units(tier, seed):
                    witnesses=("sv-read", "sv-write")))
     us.append(Unit("vcpu fields", h_struct,
                    dict(which="vcpu", nfields=6 if q else 10 ** 6), split=4,
-                   witnesses=("vcpu-read", "vcpu-write")))
+                   witnesses=("vcpu-read", "vcpu-write", "vcpu-text-read",
+                              "vcpu-text-write")))
     us.append(Unit("vcpu fields, one controller, several accesses",
                    h_vcpu_history, {}, split=5,
                    witnesses=("history-read", "history-write")))
